@@ -406,3 +406,63 @@ def render(s: MS, nil=False, ns='') -> str:
     if ns:
         out += f', namespace={ns!r}'
     return out + ')'
+
+
+# ---------------------------------------------------------------- model unflatten
+
+def rebuild(ms: MS, leaves_iter, registry=None):
+    """Build a tree of the shape described by `ms` from an iterator of leaves (documented
+    reconstruction rules: original dict key order, deque maxlen, defaultdict factory,
+    namedtuple / struct sequence class, custom unflatten function)."""
+    registry = U.MODEL_REGISTRY if registry is None else registry
+    k = ms.kind
+    if k == 'leaf':
+        return next(leaves_iter)
+    kids = [rebuild(c, leaves_iter, registry) for c in ms.children]
+    if k == 'none':
+        return None
+    if k == 'tuple':
+        return tuple(kids)
+    if k == 'list':
+        return kids
+    if k == 'deque':
+        return deque(kids, maxlen=ms.meta)
+    if k == 'od':
+        return OrderedDict(zip(ms.entries, kids))
+    if k in ('dict', 'dd'):
+        by_key = dict(zip(ms.entries, kids))
+        d = {key: by_key[key] for key in ms.orig_keys}
+        return d if k == 'dict' else defaultdict(ms.meta, d)
+    if k == 'nt':
+        return ms.type(*kids)
+    if k == 'ss':
+        return ms.type(kids)
+    if k == 'custom':
+        return registry[ms.reg][1](ms.meta, tuple(kids))
+    raise AssertionError(k)
+
+
+def postorder_nodes(ms: MS):
+    """internal nodes in post-order (children before parents, left to right)"""
+    out = []
+    for c in ms.children:
+        out += postorder_nodes(c)
+    if not ms.is_leaf:
+        out.append(ms)
+    return out
+
+
+def node_data_of(ms: MS):
+    """documented node_data handed to PyTreeSpec.walk's f_node"""
+    k = ms.kind
+    if k in ('dict', 'od'):
+        return list(ms.entries)
+    if k == 'dd':
+        return (ms.meta, list(ms.entries))
+    if k == 'deque':
+        return ms.meta
+    if k in ('nt', 'ss'):
+        return ms.type
+    if k == 'custom':
+        return ms.meta
+    return None
